@@ -81,7 +81,8 @@ def unit():
     # workers(p): the worker table of pool p is well formed
     U.define("slots", ["p"],
              "p._wid_counter >= 0"
-             " and forall(k, 0, len(p.procs), p.procs[k] != None and p.procs[k].pstarted and p.procs[k].owner == p and not is_none(p.procs[k].wid)"
+             " and forall(k, 0, len(p.procs), p.procs[k] != None and p.procs[k].pstarted and not p.procs[k].pjoined and p.procs[k].owner == p"
+             "            and not is_none(p.procs[k].wid)"
              "            and 0 <= some(p.procs[k].wid) and some(p.procs[k].wid) < p._wid_counter and p.widslot[some(p.procs[k].wid)] == k"
              "            and p.slot[p.procs[k]] == k, trigger=p.procs[k])")
     # no started-and-not-joined worker of this pool is outside procs (join-before-replace: none is leaked)
@@ -137,7 +138,7 @@ def unit():
             " and same(%s._workers_factory, old(%s._workers_factory)) and %s._workers_factory != None"
             " and same(%s._work_queue, old(%s._work_queue)) and same(%s._results_queue, old(%s._results_queue))" % ((pl,) * 12))
     l1.invariant(keep)
-    l1.invariant("slots(%s)" % pl, "every-slot-holds-a-started-worker-of-this-pool-with-a-unique-wid")
+    l1.invariant("slots(%s)" % pl, "every-slot-holds-a-started-and-not-yet-joined(live-or-retiring)-worker-of-this-pool-with-a-unique-wid")
     l1.invariant("noleak(%s)" % pl, "join-before-replace:no-started-and-unjoined-worker-ever-leaves-procs")
     l1.invariant("len(%s.procs) == old(len(%s.procs))" % (pl, pl), "the-pool-never-runs-out-of-workers(size-constant)")
     l1.invariant("%s._replace_queue.stops_taken == old(%s._replace_queue.stops_taken)" % (pl, pl), "no-stop-token-consumed-while-running")
